@@ -11,6 +11,7 @@ structure St where
   vtree : Option Tree := none
   leaves : Array Bytes := #[]
   pleaves : Array Bytes := #[]
+  held : Nat := 0   -- headers handed out so far; headers are values, so all of them stay valid
 
 def H : Bytes → Bytes := Goloop.sha3_256
 
@@ -58,11 +59,12 @@ def step (s : St) (toks : List String) : St × String :=
         ({ s with acc := acc, tdb := db, persisted := some acc, leaves := lv, pleaves := lv }, "ok")
       else ({ s with acc := acc, tdb := db }, "panic")
     | none => (s, "bad-op")
+  | ["held"] => (s, s!"held {s.held} {s.held}")
   | ["hdr"] => match s.acc.header H with
-    | some h => (s, hdrStr h)
+    | some h => ({ s with held := s.held + 1 }, hdrStr h)
     | none => (s, "panic")
   | ["fin"] => match s.acc.finalize H s.tdb with
-    | some (h, db) => ({ s with tdb := db }, hdrStr h)
+    | some (h, db) => ({ s with tdb := db, held := s.held + 1 }, hdrStr h)
     | none => (s, "panic")
   | ["len"] => (s, s!"len {s.acc.len}")
   | ["setlen", x] => match x.toNat? with
